@@ -58,10 +58,18 @@ type noWriter struct{}
 
 func (noWriter) Add(*operation.QueuedOperation, uint64) error { return nil }
 
+// handlers are long-lived: one document handler (with its processor over an empty, never changing store) per hash
+// algorithm for the whole process, as on a real node.
+var handlers = map[uint]*dochandler.DocumentHandler{}
+
 func handlerFor(code uint) *dochandler.DocumentHandler {
+	if h, ok := handlers[code]; ok {
+		return h
+	}
 	pc := wire.NewClient(parserFor(code))
 	proc := processor.New("verif", wire.NewOpStore(), pc)
-	return dochandler.New(ns, nil, pc, noWriter{}, proc, wire.DocMetrics{})
+	handlers[code] = dochandler.New(ns, nil, pc, noWriter{}, proc, wire.DocMetrics{})
+	return handlers[code]
 }
 
 // genCreate draws a create request (as asm.Create) with varied suffix data and delta.
